@@ -1,3 +1,53 @@
+/-
+  C08 on the API state machine (`Model/Api.lean`): counter independence lifted to HISTORIES of API calls.
+
+  C08: "The data returned by a read, and the bytes produced by a write or parse, are a function of the file contents and
+  the options alone … whatever reads, writes, loads or resets happened before in the same process, and whatever value the
+  internal placeholder counter has reached, including across its wrap-around."  Here: for every world (file system +
+  counter), every history `ops : List ApiOp` run by `apiRun`, and a probe call appended to the history.
+
+  Headline theorems
+    `step_valid_counter`, `run_valid_counter`
+        the invariant: EVERY API call (read, write, dump, parse, load, reset; completed or not), on every file system and
+        every text, keeps the counter at a value that can occur (`none`, or `some n` with `n ≤ 999999`).  Proved through
+        the whole reader: `parseNative_valid` (every lexer stage, arbitrary text), `parseJson_valid`,
+        `mergeIncludesRec_valid` (every include graph), `readFile_valid`, `writeText_valid`.
+    `C08_history_writes`   (contains `C08_history_reads`)
+        a file that is an admissible layout of a well-formed comment-free document (`PlainDoc` = the hypotheses of
+        `C08_data_counter_independent`), ANY read options, ANY history none of whose calls targets that file (reads,
+        loads, resets never do; writes / dumps / parses to other files allowed): the probe `read p o` after the history
+        returns exactly what it returns in the fresh world `{ fs := w.fs, c := none }`, and that is `plainProbe`, a closed
+        form without file system and counter.  The whole `ApiOut` is equal (data and side tables), not only the data.
+        `plainProbe_meaning`: for includes on / no scope / no order it is the documented meaning `denSrcEs es []`.
+    `C08_history_reads`        the same for histories of reads, loads, resets (`C13api.IsReadOp`): no side condition.
+    `C08_history_load`         the same for the probe `SDict().load(p)`.
+    `C08_history_commented`, `C08_history_commented_reads`
+        commented documents (`CommentedDoc` = the hypotheses of `C08_commented_canon_eq`), options: comments kept,
+        `order = false`, no scope, includes on or off (`CommentedOpts`): the outputs agree after `canonOut`
+        (`C08.canonSD` on the returned SDict: placeholder ids ↦ rank of first appearance).  Goes through the stages above
+        the parser: `_merge_includes` on a dict without include entries is `_clean` twice (`selfMerge_eq`), `_clean` and
+        `_remove_include_keys` commute with the renaming of ids (`C08.clean_ren`, `phWF_clean`, `removeIncludeKeys_ren`).
+    `order_refutes`            REFUTATION: the same statement with `order = true` is false (witness below; finding D18).
+    `C08_write_bytes_history`, `C08_write_unsupported_history`
+        after ANY history (no side condition at all), from any world and ANY counter value, an overwriting `write` of
+        any source (builtin dict or SDict) leaves in its target `writeBytes target order source`: a function of the
+        target's suffix, the source and `order` alone; the counter is not moved.  `writeBytes_plain`: for a builtin dict
+        it is `fmtPlain` of the retyped (ordered) dict.
+    `C08_parse_bytes_history`
+        `parse src` in overwrite mode on a comment-free source after any history that does not target the source: the
+        bytes in `parsed.<name>` are `writeBytes` of `postRead` of the document's meaning.
+
+  Assumed (hypotheses): the starting counter is a value that can occur (`C13.ValidCounter Gen.counterLimit w.c`; the real
+  counter starts at `none` and `step_valid_counter` shows it never leaves the set); the probed file is native text of
+  the document class named; histories do not *target* the probed file (they may read it).
+
+  NOT covered
+    * probed files WITH include directives (`readFile_congr` over the include closure; the fuel argument is available as
+      `C06_fuel_suffices`, but the counter-dependence of the included files' placeholder ids needs `C08incl`-style
+      renaming through `merge`, which is not proved anywhere yet);
+    * commented documents with `order = true` (false: `order_refutes`), with a scope, or with `comments = false`;
+    * `write` in append mode to an existing target (its bytes depend on the target's previous content by design), JSON/XML.
+-/
 import DictIO.Props.C13api
 import DictIO.Props.C08nat
 import DictIO.Props.C06fold
@@ -451,12 +501,14 @@ def probeOut : Except ParseErr (Option SD) → ApiOut
   | .ok none => .exit1
   | .ok (some s) => .data s
 
+theorem readFile_error {ev : Str → EvalResult} {fs : FS} {o : ReadOpts} {c : Counter} {p : Comps} {e : ParseErr}
+    (hp : parseFile fs o.comments c p = .error e) : readFile ev fs o c p = .error e := by
+  simp only [readFile, hp, bind, Except.bind]
+
 theorem read_out_error {ev : Str → EvalResult} {w : World} {p : Comps} {o : ReadOpts} {b : FileBody} {e : ParseErr}
     (hg : w.fs.get (resolveSpelled p) = some b) (hp : parseFile w.fs o.comments w.c p = .error e) :
     (apiStep ev w (.read p o)).2 = .gaveUp e := by
-  have : readFile ev w.fs o w.c p = .error e := by
-    simp only [readFile, hp, bind, Except.bind]
-  simp only [apiStep, hg, this]
+  simp only [apiStep, hg, readFile_error hp]
 
 theorem read_out_noincl {ev : Str → EvalResult} {w : World} {p : Comps} {o : ReadOpts} {b : FileBody} {sd : SD} {c' : Counter}
     (hg : w.fs.get (resolveSpelled p) = some b) (hp : parseFile w.fs o.comments w.c p = .ok (sd, c')) (hi : sd.incl = []) :
@@ -518,6 +570,32 @@ theorem probe_plain (ev : Str → EvalResult) {w : World} {p : Comps} (o : ReadO
   | false =>
     rw [hxj] at h
     exact read_out_noincl hfile h rfl
+
+/-- **the value `SDict().load(p)` returns for such a file**, in closed form -/
+def plainLoad (ev : Str → EvalResult) (p : Comps) (es : SrcEntries) : ApiOut :=
+  if isXmlPath p || isJsonPath p then .gaveUp .unsupported
+  else match postRead ev {} { data := denSrcEs es [] } with
+    | .error e => .gaveUp e
+    | .ok none => .exit1
+    | .ok (some s) => .data (({} : SD).update (.sd s))
+
+theorem load_plain (ev : Str → EvalResult) {w : World} {p : Comps} {es : SrcEntries} {gaps : List Str} {tail : Str}
+    (hdoc : PlainDoc es gaps tail)
+    (hfile : w.fs.get (resolveSpelled p) = some (.native (spreadS (srcToksEs es) gaps tail))) (hc : V w.c) :
+    (apiStep ev w (.load p)).2 = plainLoad ev p es := by
+  obtain ⟨c', h⟩ := parseFile_plain hdoc hfile ({} : ReadOpts).comments hc
+  unfold plainLoad
+  cases hxj : (isXmlPath p || isJsonPath p) with
+  | true =>
+    rw [hxj] at h
+    simp only [if_true] at h
+    simp only [apiStep, hfile, readFile_error (ev := ev) (o := {}) h, if_true]
+  | false =>
+    rw [hxj] at h
+    simp only [apiStep, hfile, readFile_noincl ev w.fs {} w.c c' p _ h rfl, Bool.false_eq_true, if_false]
+    cases postRead ev {} { data := denSrcEs es [] } with
+    | error e => rfl
+    | ok r => cases r <;> rfl
 
 /-! ### `_clean` keeps what the renaming lemma `clean_ren` needs -/
 
@@ -911,9 +989,9 @@ theorem parse_step_plain (ev : Str → EvalResult) {w : World} {src : Comps} (o 
 theorem postRead_plain (ev : Str → EvalResult) {es : SrcEntries} {gaps : List Str} {tail : Str} (hdoc : PlainDoc es gaps tail)
     (o : ReadOpts) (hi : o.includes = true) (hs : o.scope = []) (ho : o.order = false) :
     postRead ev o { data := denSrcEs es [] } = .ok (some { data := denSrcEs es [] }) := by
-  have hn : NodupKeysV (.dict (denSrcEs es [])) := C02.Main.den_nodup es
+  have hn : NodupKeysV (.dict (denSrcEs es [])) := C02.den_nodup es
   have hcl : ({ data := denSrcEs es [] } : SD).clean = { data := denSrcEs es [] } :=
-    C07.clean_id _ hn (C02.Main.den_noPh hdoc.wf)
+    C07.clean_id _ hn (C02.den_noPh hdoc.wf)
   have hsm : selfMerge { data := denSrcEs es [] } = { data := denSrcEs es [] } := by
     rw [selfMerge_eq _ hn, hcl, hcl]
   unfold postRead
@@ -963,6 +1041,23 @@ theorem C08_history_reads (ev : Str → EvalResult) (ops : List ApiOp) (w : Worl
         (apiRun ev w ops).2 ++ (apiRun ev { fs := w.fs, c := none } [.read p o]).2 ∧
       (apiRun ev { fs := w.fs, c := none } [.read p o]).2 = [plainProbe ev p o es] :=
   C08_history_writes ev ops w p o hdoc hfile hc (fun op hop => by rw [target_of_readOp (hops op hop)]; exact nofun)
+
+/-- the same for the probe `SDict().load(p)` -/
+theorem C08_history_load (ev : Str → EvalResult) (ops : List ApiOp) (w : World) (p : Comps)
+    {es : SrcEntries} {gaps : List Str} {tail : Str} (hdoc : PlainDoc es gaps tail)
+    (hfile : w.fs.get (resolveSpelled p) = some (.native (spreadS (srcToksEs es) gaps tail)))
+    (hc : C13.ValidCounter Gen.counterLimit w.c)
+    (hops : ∀ op ∈ ops, op.target ≠ some (resolveSpelled p)) :
+    (apiRun ev w (ops ++ [.load p])).2 =
+        (apiRun ev w ops).2 ++ (apiRun ev { fs := w.fs, c := none } [.load p]).2 ∧
+      (apiRun ev { fs := w.fs, c := none } [.load p]).2 = [plainLoad ev p es] := by
+  have h1 : (apiStep ev (apiRun ev w ops).1 (.load p)).2 = plainLoad ev p es :=
+    load_plain ev hdoc (by rw [C13api.run_frame ev _ ops w hops]; exact hfile) (run_valid_counter ev ops w hc)
+  have h2 : (apiStep ev { fs := w.fs, c := none } (.load p)).2 = plainLoad ev p es :=
+    load_plain ev (w := { fs := w.fs, c := none }) hdoc hfile V_none
+  have h3 : (apiRun ev { fs := w.fs, c := none } [.load p]).2 = [plainLoad ev p es] := by
+    rw [C13api.apiRun_cons, h2]; rfl
+  exact ⟨by rw [apiRun_snoc, h1, h3], h3⟩
 
 /-- **C08 for writes, on histories.**  After *any* history of API calls (no side condition: the history may read,
     rewrite or create the target itself), from any world and any counter value whatsoever, an overwriting `write`
@@ -1187,6 +1282,22 @@ example :
     (apiRun evalInt exOWorld [.read exO { order := true }]).2.map outLineC = [[(0, "// y".toList), (999999, "// x".toList)]] ∧
     (apiRun evalInt { fs := exOWorld.fs, c := none } [.read exO { order := true }]).2.map outLineC =
       [[(0, "// x".toList), (1, "// y".toList)]] := by decide +kernel
+
+#print axioms step_valid_counter
+#print axioms run_valid_counter
+#print axioms C08_history_writes
+#print axioms C08_history_reads
+#print axioms C08_history_load
+#print axioms C08_write_bytes_history
+#print axioms C08_write_unsupported_history
+#print axioms C08_parse_bytes_history
+#print axioms C08_history_commented
+#print axioms C08_history_commented_reads
+#print axioms order_refutes
+#print axioms plainProbe_meaning
+#print axioms ex_parse
+#print axioms ex_plain_probe
+#print axioms ex_commented_probe
 
 end C08api
 end DictIO
